@@ -339,6 +339,25 @@ theorem compat_lists_eq_spec :
     Generated.C14.compat = Spec.HtmlAllow.expected .compat Generated.C14.univ :=
   Lemmas.HtmlTables.compat_table
 
+/-- The static lists assembled from the extraction — the lists the model runs with when it is
+compared with the running code (T2) — are, as data, the spec's lists. -/
+theorem impl_lists_eq_spec : Lemmas.HtmlTables.implLists = Spec.HtmlAllow.lists :=
+  Lemmas.HtmlTables.impl_eq_spec
+
+/-- Hence the property in the spec's words (`standard_output_spec`) holds of the very model
+instance that is run side by side with the implementation. -/
+theorem standard_output_impl (m : Mode) (rrf : Bool) (roots : List Node) :
+    let out := clean Lemmas.HtmlTables.implLists (plain (some m) rrf) roots
+    AllElemsL (fun _ n as =>
+        Spec.HtmlAllow.elemAllowed n = true ∧ (rrf = true → n ≠ replyName) ∧
+        ∀ a ∈ as, a.ns = [] ∧ Spec.HtmlAllow.attrAllowed n a.name = true ∧
+          Spec.HtmlAllow.valueAllowed m n a.name a.value = true ∧
+          (a.name = className → ∀ cl ∈ splitWs a.value, Spec.HtmlAllow.classAllowed n cl = true)) 0 out ∧
+    NoOtherL out ∧ depthOfL out ≤ 100 ∧
+    textOfL out = keptTextL Lemmas.HtmlTables.implLists (plain (some m) rrf) 0 roots := by
+  rw [impl_lists_eq_spec]
+  exact standard_output_spec m rrf roots
+
 /-- Every name the spec lists is inside the universes, so the comparison misses nothing. -/
 theorem spec_within_universe : Spec.HtmlAllow.withinUniverse Generated.C14.univ = true :=
   Lemmas.HtmlTables.within
@@ -372,4 +391,6 @@ end Ruma.Props.C14
 #print axioms Ruma.Props.C14.standard_output_spec
 #print axioms Ruma.Props.C14.strict_lists_eq_spec
 #print axioms Ruma.Props.C14.compat_lists_eq_spec
+#print axioms Ruma.Props.C14.impl_lists_eq_spec
+#print axioms Ruma.Props.C14.standard_output_impl
 #print axioms Ruma.Props.C14.spec_within_universe
